@@ -3,6 +3,15 @@ import json, os, time
 from kbcheck import *
 import fam_read
 from fam_read import SEQ_CONSTS, seq_mc, seq_gen, seqrun
+import fam_write
+from fam_write import run_mc, gen_behaviours
+
+# the compactor as a process of the concurrent model: one step per engine deletion, racing writers
+CC_CONSTS = dict(fam_write.BASE_CONSTS, Keys={1}, Writers={"c1"}, OpsPer=1,
+                 InitStates={"none", "live", "live2", "deleted", "compacted", "recreated"}, ExpSet={0, 1, 2, 3},
+                 Compactors={"k1"}, CompactRevs={0, 2}, MaxCompacts=1, CompactDetail=True)
+CC_INV = ["IndexAgrees", "Chain", "OneWinner", "FailedLeavesKey", "FailedOnlyIfDiffered", "ReadsPreserved", "StaysWritable",
+          "Resolved", "Converged", "CompactClamp", "RepairStillPossible"]
 
 MC_INV = {"C07": ["CompactionSafe", "IndexAgrees", "ScanIsSnapshot", "PointIsSnapshot"]}
 T_MON = {"C07": ["M_CompactionPreservesReads", "M_CompactionDeletesLiveIndex", "M_ReadIsSnapshot", "M_MoreFlag", "M_CountIsSnapshot",
@@ -52,6 +61,44 @@ def check_compact(prop, tier, seed):
             log("seqrun %s: %d histories x 4 engines (%d faulty/interrupted compactions with work), predicted responses matched in %d" % (
                 title, rep.get("behaviours", 0), nf, rep.get("agreed", 0)))
             alltraces += traces
+        # the compactor as a gated process: every interleaving of its deletions with the steps of writers
+        ccm = [("concurrent model: 1 writer, stepwise compactor, every initial key state", dict(CC_CONSTS)),
+               ("concurrent model: 2 writers on a deleted / re-created key, stepwise compactor",
+                dict(CC_CONSTS, Writers={"c1", "c2"}, InitStates={"deleted", "recreated"}, CompactRevs={0, 2, 4}))]
+        if not quick:
+            ccm.append(("concurrent model: 2 writers, every initial key state, one failing / lost deletion or dying compactor",
+                        dict(CC_CONSTS, Writers={"c1", "c2"}, CompactRevs={0, 2, 4}, DelFaults={"err", "cas", "die"}, FaultBudget=1)))
+            ccm.append(("concurrent model: 2 writers, conflicts carry no value (TiKV), stepwise compactor",
+                        dict(CC_CONSTS, Writers={"c1", "c2"}, CompactRevs={0, 2, 4}, ConflictCarriesValue=False)))
+        for title, consts in ccm:
+            r = run_mc(work, consts, CC_INV, name="mccc")
+            cov["states"] += r["distinct"]
+            cov["transitions"] += r["states"]
+            cov["mc_runs"].append(dict(module="KubeBrain.tla (CStart / CIter / CDel)", config=title, distinct_states=r["distinct"], states_generated=r["states"], invariants=CC_INV))
+            log("MC %s: %d distinct states" % (title, r["distinct"]))
+        ccg = dict(CC_CONSTS, Writers={"c1", "c2"}, CompactRevs={0, 2, 4}, DelFaults={"err", "cas", "die"}, FaultBudget=1)
+        nn = 2500 if quick else 30000
+        ccdels = 0
+        off_model = None
+        for engine, consts, num, shards in [("memkv", ccg, nn, 16), ("tikv", dict(ccg, ConflictCarriesValue=False), nn // 5, 8), ("badger", ccg, nn // 5, 4)]:
+            behs, g = gen_behaviours(work, consts, "simulate", seed + 7, num=num, depth=80, limit=num, name="gencc")
+            reports, traces = replay(work, binp, behs, engine, shards, name="replaycc_" + engine)
+            rep = merge_reports(reports)
+            cov["evaluations"] += rep.get("behaviours", 0)
+            cov["distinct_nontrivial"] += rep.get("nontrivial", 0)
+            ccdels += (rep.get("action_count") or {}).get("CDel", 0)
+            cov["replay"].append(dict(histories="schedules of the concurrent model with a stepwise compactor, replayed gate by gate", engine=engine,
+                                      behaviours=rep.get("behaviours", 0), agreed_with_spec=rep.get("agreed", 0), diverged=rep.get("diverged", 0),
+                                      observable_mismatch=rep.get("obs_mismatch", 0), actions=rep.get("action_count", {}),
+                                      notes=(rep.get("mismatch_notes") or [])[:2]))
+            log("replay %s, stepwise compactor: %d behaviours, agreed %d, diverged %d, observable mismatch %d" % (
+                engine, rep.get("behaviours", 0), rep.get("agreed", 0), rep.get("diverged", 0), rep.get("obs_mismatch", 0)))
+            if rep.get("diverged", 0) + rep.get("obs_mismatch", 0) > max(3, rep.get("behaviours", 0) // 50):
+                # the verdict is T's (below); only if T accepts every trace does this make the run undecided
+                off_model = "the real compactor does not follow the model on %s: %s" % (engine, (rep.get("mismatch_notes") or [])[:3])
+            alltraces += traces
+        if ccdels == 0:
+            raise Undecided("vacuous: no replayed behaviour contained a compaction deletion")
         # free-running: writers, a compactor and readers at past revisions, concurrently
         d = work.sub("cstress")
         procs = []
@@ -77,6 +124,8 @@ def check_compact(prop, tier, seed):
         if v:
             violations += 1
             report_violation(prop, seed, v)
+        elif off_model:
+            raise Undecided(off_model)
         cov["rule"] = ("histories generated by TLC from KBSeq.tla in which a compaction may be interrupted before any deletion or have any one deletion fail "
                        "(certain error / failed compare), injected at the engine boundary of the real scanner, followed by further writes and by reads at every "
                        "revision; plus free-running runs of writers, a compactor and readers; non-trivial = at least two requests")
@@ -118,7 +167,13 @@ def check_ttl(prop, tier, seed):
         behs = seq_gen(work, dict(TTL_CONSTS, Keys={1, 2, 3, 4}, EventKeys={2, 3}, MaxOps=6, CompactAfter=2), seed, n, name="genttl")
         aged = sum(1 for b in behs for o in json.loads(b)["ops"] if o["op"] == "compact" and o["aged"] > 0)
         flags = ["-seed", str(seed), "-frac", "0.0", "-finalfrac", "0.1" if quick else "0.5", "-streams=false", "-ttl", "1", "-keyset", "events"]
-        rep, traces, _ = seqrun(work, binp, behs, "tikv", 16, flags)
+        half = len(behs) // 2
+        rep, traces, _ = seqrun(work, binp, behs[:half], "tikv", 8, flags, name="seqttl1")
+        # the same model, the non-event keys being siblings of the events directory whose names start with "events"
+        rep2, traces2, _ = seqrun(work, binp, behs[half:], "tikv", 8, flags[:-1] + ["events2"], name="seqttl2")
+        traces += traces2
+        for k in ("behaviours", "nontrivial", "agreed", "obs_mismatch"):
+            rep[k] = rep.get(k, 0) + rep2.get(k, 0)
         cov["evaluations"] += rep.get("behaviours", 0)
         cov["distinct_nontrivial"] += rep.get("nontrivial", 0)
         cov["replay"].append(dict(what="TiKV mock (no native TTL): Event records, a pod in a namespace called events and a plain key; compactions whose marks age beyond a 1 s TTL (real sleeps)",
